@@ -78,7 +78,7 @@ class Obligation:
 class Ctx:
     """state of one path"""
 
-    def __init__(self, prefix=(), feas_timeout_ms=5000):
+    def __init__(self, prefix=(), feas_timeout_ms=1500):
         self.pc = []
         self.prefix = list(prefix)
         self.pos = 0
@@ -191,8 +191,36 @@ class Ctx:
             return False
         return self._check(z3.Not(f)) == z3.unsat
 
+    @staticmethod
+    def _surely_positive(t):
+        """syntactic: numerals > 0, pi, INF, exp(.), sqrt(positive), products / sums of positives"""
+        t = z3.simplify(t)
+        if z3.is_int_value(t):
+            return t.as_long() > 0
+        if z3.is_rational_value(t):
+            return t.as_fraction() > 0
+        if z3.is_const(t):
+            return t.decl().name() in ("pi", "INF")
+        if z3.is_app(t):
+            n = t.decl().name()
+            ch = t.children()
+            if n == "exp":
+                return True
+            if n in ("sqrt", "recip") and ch:
+                return Ctx._surely_positive(ch[0])
+            k = t.decl().kind()
+            if k in (z3.Z3_OP_MUL, z3.Z3_OP_ADD) and ch:
+                return all(Ctx._surely_positive(c) for c in ch)
+            if k == z3.Z3_OP_DIV and len(ch) == 2:
+                return Ctx._surely_positive(ch[0]) and Ctx._surely_positive(ch[1])
+            if k == z3.Z3_OP_TO_REAL:
+                return Ctx._surely_positive(ch[0])
+        return False
+
     def require_nonzero(self, t, msg):
         # division by zero raises in Python; modelled as a raise on that branch
+        if self._surely_positive(t) or self._surely_positive(-t):
+            return
         if z3.is_int_value(t) or z3.is_rational_value(t):
             if z3.simplify(t == 0) == z3.BoolVal(True):
                 raise PyRaise(VExc("ZeroDivisionError", msg))
